@@ -676,7 +676,7 @@ func init() {
 			if tier == "thorough" {
 				return 150000
 			}
-			return 12000
+			return 48000
 		},
 		Run: c11Run,
 		Rule: "random virtual file trees (3 directory levels, 7-13 files) distributed over 1-3 recording loaders (later loaders hold shadowing copies, misses are reported with plain and with fs.ErrNotExist-wrapping errors), with acyclic reference graphs via include (static and lazy, with/only/if_exists), extends, import, ssi (plain and parsed), written as rooted, relative and '..' names; the virtual root is a real directory holding canary files of the same names; " +
